@@ -143,6 +143,9 @@ pub fn family_medium() -> Vec<FnRep> {
         vec![1, 2, 7],
     ];
     out.extend(gen_polynomial(&few, &[1.0, -1.0, 0.0], 2));
+    out.push(FnRep::Poly { terms: vec![(vec![], 2.0), (vec![1], 1.0), (vec![], -0.5), (vec![2, 1], 0.0)] });
+    out.push(FnRep::Poly { terms: vec![(vec![], 1.0), (vec![], 2.0), (vec![], -0.5)] });
+    out.push(FnRep::Quad { entries: vec![(1, 2, 0.0), (2, 2, 0.0)], lin: Some((vec![(1, 1.0), (2, 0.0)], 0.5)) });
     out
 }
 
@@ -169,5 +172,9 @@ pub fn family_small() -> Vec<FnRep> {
         FnRep::Poly { terms: vec![(vec![7, 1, 7], -0.5), (vec![1], 1.0), (vec![], -1.0)] },
         FnRep::Poly { terms: vec![(vec![1, 1, 2, 2], 1.0), (vec![7], 0.0)] },
         FnRep::Poly { terms: vec![(vec![1, 2, 7], 2.0), (vec![2], -1.0), (vec![2], 1.0)] },
+        // constant split over several degree-0 monomials (wire-legal; helpers that read "the" constant must sum them)
+        FnRep::Poly { terms: vec![(vec![], 2.0), (vec![1], 1.0), (vec![], -0.5)] },
+        FnRep::Poly { terms: vec![(vec![], 1.0), (vec![], 2.0)] },
+        FnRep::Quad { entries: vec![(1, 2, 0.0), (2, 2, 0.0)], lin: Some((vec![(1, 1.0), (2, 0.0)], 0.5)) },
     ]
 }
